@@ -142,6 +142,11 @@ def check(report: Report, repo: Repo) -> None:
             prev = T("callv", (TM.term_of(e["callee"]), tuple(TM.term_of(a) for a in e["args"]), ()))
         chain_ok = chain_ok and TM.term_of(out) == prev
         report.add("R2-backend-list", f"{TU}::_compose_backends", chain_ok, "each backend is applied exactly once, in list order, to the previous backend's result", order, ["b1", "b2", "b3"])
+        # a recompilation calls the same composite backend again: every backend must be applied again
+        it.events = []
+        out2 = it.call_function(comp, [O("gm2"), O("example_inputs")], {})
+        order2 = [fmt(e["callee"]) for e in it.events if e.kind == "callv" and fmt(e["callee"]) in ("b1", "b2", "b3")]
+        report.add("R2-backend-list", f"{TU}::_compose_backends::recompile", order2 == ["b1", "b2", "b3"] and TM.term_of(out2) != T("param", ("gm2",)), "a second invocation of the composite backend (Dynamo recompiles on a new input shape / after reset) applies every backend again", order2, ["b1", "b2", "b3"])
     except Unsupported as ex:
         report.add("R2-backend-list", f"{TU}::_compose_backends", None, f"outside fragment: {ex}")
 
